@@ -716,17 +716,33 @@ def run_fault_case(ctx, version, ops, label):
             # the cache keeps working: a further store and a remove, without faults
             a2 = rng.choice(addrs)
             d2 = bytes([rng.randrange(256) for _ in range(rng.choice([1, 5, 40]))])
+            # first a tile that was never stored, in the bundle the failed store went to: it is appended behind whatever
+            # the failed store left there
+            kz, kc, kr = key_of(tuple(batch[0][0]))
+            a4 = (kc + 111, kr + 113, kz)
+            d4 = bytes([rng.randrange(256) for _ in range(300)])
+            r4 = real.store([(a4, list(d4))])
+            mid = loads_of(real, addrs + [a4])
+            wmid = dict(got)
+            wmid[a4] = ('data', d4)
+            for a in addrs + [a4]:
+                if mid[a] != wmid[a]:
+                    ctx.fail('v%d,fault-wrong-bytes' % version,
+                             'after a failed store and a further store of a new tile: load_tile%r returned %s' % (a, short(mid[a])),
+                             dict(rep, address=list(a), got=short(mid[a]), then=[list(a4), 'store 300 bytes']))
             r2 = real.store([(a2, list(d2))])
             a3 = rng.choice(addrs)
             r3 = real.remove(a3)
-            if r2 != ('ok', True) or r3 != ('ok', True):
-                ctx.fail('v%d,fault-cache-unusable' % version, 'after a failed store: store -> %r, remove -> %r' % (r2, r3),
-                         dict(rep, then=[list(a2), list(a3)]))
+            if r2 != ('ok', True) or r3 != ('ok', True) or r4 != ('ok', True):
+                ctx.fail('v%d,fault-cache-unusable' % version,
+                         'after a failed store: store -> %r, store -> %r, remove -> %r' % (r2, r4, r3),
+                         dict(rep, then=[list(a2), list(a4), list(a3)]))
             want = dict(got)
             want[a2] = ('data', d2)
+            want[a4] = ('data', d4)
             want[a3] = ('missing',)
-            got2 = loads_of(real, addrs)
-            for a in addrs:
+            got2 = loads_of(real, addrs + [a4])
+            for a in addrs + [a4]:
                 if got2[a] != want[a]:
                     ctx.fail('v%d,fault-wrong-bytes' % version,
                              'after a failed store and a further store/remove: load_tile%r returned %s' % (a, short(got2[a])),
